@@ -293,6 +293,11 @@ FIXED_FORMS = [
     # the server-side operation is klong[:nosuchkey] / calling a non-callable value: both fail on the server
     ('missing-remote-symbol', 'd?:nosuchkey', None),
     ('call-non-callable', 'f([;:a;1])', None),
+    # a projection on the server: its proxy has as many parameters as the projection has open slots
+    ('remote-projection-call', 'f("add::{x-y};inc::add(;1)");f([;:inc;5])', 'add::{x-y};inc::add(;1);inc(5)'),
+    ('proxy-to-projection', 'f("add::{x-y};inc::add(;1)");q::f(:inc);q(5)', 'add::{x-y};inc::add(;1);inc(5)'),
+    ('dict-proxy-to-projection', 'f("add::{x-y};inc::add(;1)");q::d?:inc;q(5)', 'add::{x-y};inc::add(;1);inc(5)'),
+    ('proxy-to-projection-of-triad', 'f("t3::{x,y,z};p2::t3(;0;)");q::f(:p2);q(1;2)', 't3::{x,y,z};p2::t3(;0;);p2(1;2)'),
 ]
 # a remote function is looked up (proxy), the name is rebound on the server to a function of another arity, and looked up
 # and called again: the second proxy must be a proxy of the new function (all ordered pairs of arities 1, 2, 3)
